@@ -21,18 +21,19 @@ import (
 // with a boring reference model evaluated after every step.  Used by C01, C03, C06 (and reused by others).
 
 type PipeParams struct {
-	Mode      string   `json:"mode"`   // "script" (fixed layouts) or "gen" (packets chosen from an alphabet)
-	Layout    string   `json:"layout"` // script mode: name of the per-vBucket scripts
-	Alphabet  []string `json:"alphabet,omitempty"`
-	Depth     int      `json:"depth"`
-	Ops       []string `json:"ops"` // deliver0 deliver1 ackold acknew commit tick crash
-	Backend   string   `json:"backend"`
-	SkipUntil bool     `json:"skip_until"`
-	Colls     bool     `json:"colls"`
-	Faults    bool     `json:"faults"` // a save may fail (free choice at the first checkpoint write of a save)
-	Auto      bool     `json:"auto"`
-	CrashEnd  bool     `json:"crash_end"` // always finish with crash+restart
-	Latest    bool     `json:"latest"`    // checkpoint.autoReset = latest
+	Mode       string   `json:"mode"`   // "script" (fixed layouts) or "gen" (packets chosen from an alphabet)
+	Layout     string   `json:"layout"` // script mode: name of the per-vBucket scripts
+	Alphabet   []string `json:"alphabet,omitempty"`
+	Depth      int      `json:"depth"`
+	Ops        []string `json:"ops"` // deliver0 deliver1 ackold acknew commit tick crash
+	Backend    string   `json:"backend"`
+	SkipUntil  bool     `json:"skip_until"`
+	Colls      bool     `json:"colls"`
+	Faults     bool     `json:"faults"` // a save may fail (free choice at the first checkpoint write of a save)
+	Auto       bool     `json:"auto"`
+	CrashEnd   bool     `json:"crash_end"`   // always finish with crash+restart
+	Latest     bool     `json:"latest"`      // checkpoint.autoReset = latest
+	MetaBucket bool     `json:"meta_bucket"` // checkpoints live in a second bucket, not in the streamed one
 }
 
 var skipT = time.Unix(1_700_000_100, 0)
@@ -249,6 +250,9 @@ func newPipe(p PipeParams) *pipe {
 	if p.Colls {
 		o.Collections = []string{"c1", "c2"}
 	}
+	if p.MetaBucket {
+		o.MetaBucket = "meta"
+	}
 	if p.Backend == "file" {
 		f, _ := os.CreateTemp("", "ckpt*.json")
 		pp.file = f.Name()
@@ -387,7 +391,11 @@ func (pp *pipe) stored(vb uint16) (refOffset, bool) {
 		}
 		return refOffset{d.Checkpoint.Snapshot.StartSeqNo, d.Checkpoint.Snapshot.EndSeqNo, d.Checkpoint.VbUUID, d.Checkpoint.SeqNo}, true
 	}
-	d, ok := StoredDoc(pp.c, srcBucket, "g", vb)
+	mb := srcBucket
+	if pp.p.MetaBucket {
+		mb = "meta"
+	}
+	d, ok := StoredDoc(pp.c, mb, "g", vb)
 	if !ok {
 		return refOffset{}, false
 	}
